@@ -857,6 +857,12 @@ def check(ctx):
     _walk(ctx)
     _identity_release(ctx)
     _exact_fit(ctx, nz)
+    # shared with C04.1: the affinity head-room test reads counters that
+    # move with placements and topology by whole multisets - an over-count
+    # rejects a server that fits
+    from . import c04
+    with ctx.shared({'C04': 'C02.7'}):
+        c04._counters(ctx)
 
 
 _S = 'lib/python/treadmill/scheduler/__init__.py'
